@@ -14,7 +14,7 @@ SPEC = {
     "trusted_base": [],
 }
 
-KEEP = ("B", "EB", "UT", "BMAP", "MAP", "OBS", "EQ")
+KEEP = ("B", "EB", "UT", "BMAP", "MAP", "OBS", "EQ", "B2")
 
 
 def reg_file(rng, n, zero_at=None):
@@ -64,6 +64,22 @@ def run(ctx):
             toks += ["z1:%d" % i for i in range(min(n, 6))]
             lines.append("gs " + " ".join(toks))
             classes.append("bn-error")
+    # special batches for BatchNormalize: Z coordinates whose product is 1 (lambda, 1/lambda, ...), bit-identical
+    # copies held in different variables, copies next to aliases, already-normalised next to projective
+    pts = gsgen.pool_points(rng, 8)
+    for _ in range(ctx.n(6, 200)):
+        P1, P2, P3 = rng.choice(pts[3:]), rng.choice(pts[3:]), rng.choice(pts[3:])
+        lam = rng.randrange(2, E.P)
+        mu = rng.randrange(2, E.P)
+        inv = lambda v: pow(v, -1, E.P)
+        lines.append("gs raw:%s raw:%s bn:0,1 z1:0 z1:1" % (E.tok(P1, l=lam), E.tok(P2, l=inv(lam))))
+        classes.append("bn-z-product-one")
+        lines.append("gs raw:%s raw:%s raw:%s bn:2,0,1 z1:0 z1:1 z1:2" % (E.tok(P1, l=lam), E.tok(P2, l=mu), E.tok(P3, l=inv(lam * mu % E.P))))
+        classes.append("bn-z-product-one")
+        lines.append("gs raw:%s set:0 bn:0,1 z1:0 z1:1" % E.tok(P1, l=lam))
+        classes.append("bn-identical-copies")
+        lines.append("gs raw:%s raw:%s set:0 set:1 set:0 bn:4,0,3,2,1,0 z1:0 z1:1 z1:2 z1:3 z1:4" % (E.tok(P1, l=lam), E.tok(P2)))
+        classes.append("bn-identical-copies")
     norm = lambda o: gsgen.project(o, KEEP)
     impl, _ = diff(ctx, lines, "batch helpers", classes, norm=norm)
     for l, o in zip(lines, impl):
